@@ -144,7 +144,8 @@ def run_one(idx: int, m: dict, workers: int) -> dict:
     rec = {"i": idx, "file": m["file"], "line": m["line"], "desc": m["desc"]}
     try:
         copy = os.path.join(tmp, "repo")
-        shutil.copytree(REPO, copy, ignore=shutil.ignore_patterns(".git", "__pycache__", "docs"))
+        shutil.copytree(REPO, copy, symlinks=True, ignore_dangling_symlinks=True,
+                        ignore=shutil.ignore_patterns(".git", "__pycache__", "docs"))
         with open(os.path.join(copy, m["file"]), "w") as f:
             f.write(m["src"])
         r = subprocess.run(
